@@ -3,6 +3,7 @@
 A sidecar (contracts/<id>/<unit>.spec.c) carries directives in //@ comments:
   //@ tus <tu> ...            translation units to index (relative to src/qtlogger, or verif:<file>)
   //@ lower <Qualified::name>[#<sigsuffix>] ...   real functions whose lowered bodies go into the unit
+  //@ structs <Qualified::Record> ...            record layouts to emit although no lowered function needs them
   //@ enforce <c_function> [key=value ...]        one proof: contract of that lowered function is enforced
   //@ lemma <c_function> [key=value ...]          one proof: harness written in the sidecar (no enforce)
   //@ ---                                         separator: part 1 (models) / part 2 (contracts)
@@ -33,7 +34,7 @@ class Unit:
     def __init__(self, prop, path):
         self.prop = prop; self.path = path
         self.name = os.path.basename(path).replace('.spec.c', '')
-        self.tus = []; self.lower = []; self.proofs = []
+        self.tus = []; self.lower = []; self.proofs = []; self.structs = []
         self.part1 = ''; self.part2 = ''
         self.parse()
         self.dir = os.path.join(BUILD, prop, self.name)
@@ -49,6 +50,7 @@ class Unit:
                 d, rest = m.group(1), m.group(2).strip()
                 if d == 'tus': self.tus += rest.split()
                 elif d == 'lower': self.lower += rest.split()
+                elif d == 'structs': self.structs += rest.split()
                 elif d in ('enforce', 'lemma'):
                     parts = rest.split()
                     opts = dict(p.split('=', 1) for p in parts[1:])
@@ -90,6 +92,9 @@ class Unit:
             except lower.Unsupported as e:
                 raise Undecided('lowering of %s: %s' % (q, e))
             order.append(info.cname)
+        for q in self.structs:
+            if q not in ix.rec_by_name: raise Undecided('record %s not found' % q)
+            L.need_struct(q)
         # repo callees that are neither listed nor given a contract/stub in the sidecar are lowered on
         # demand (CBMC then sees their real body), so an edit that starts using another small helper
         # of the library stays decidable
